@@ -332,16 +332,16 @@ def claimRewards (s : St) (sender : Addr) (ids : List Nat) : Res (St × List (St
   ids.foldl (fun (r : Res (St × List (String × Int))) id =>
     r.bind fun (st, tot) => (collectFees st sender id).bind fun (st', c) => .ok (st', addCoins tot c)) (.ok (s, []))
 
-/-- AllocateIncentive: accumulator is increased BEFORE the transfer; zero in-range liquidity divides by zero -/
+/-- AllocateIncentive: zero in-range liquidity is an error; coins move first, then the accumulator grows -/
 def allocateIncentive (s : St) (pool : Nat) (sender : Addr) (coins : List (String × Int)) : Res St := do
   let p ← match getPool s pool with | some p => Res.ok p | none => Res.err "pool-not-found"
   if !poolLive p then Res.err "empty-liquidity"
   let a ← match getAccum s pool with | some a => Res.ok a | none => Res.err "accum-not-found"
+  if !p.liq.isPositive then Res.err "zero-liquidity"
+  if !canSendAll s.bank sender coins then Res.err "insufficient-funds"
+  let b ← sendCoins s.bank sender (feesAddr pool) coins
   let growth ← DecCoins.quoDecTruncate (coins.map fun c => (c.1, Dec.ofInt c.2)) p.liq
-  let s1 := setAccum s { a with value := DecCoins.add a.value growth }
-  if !canSendAll s1.bank sender coins then Res.err "insufficient-funds"
-  let b ← sendCoins s1.bank sender (feesAddr pool) coins
-  return { s1 with bank := b }
+  return setAccum { s with bank := b } { a with value := DecCoins.add a.value growth }
 
 end Sunrise.CL
 
